@@ -143,7 +143,14 @@ impl<'de> JsonInput<'de> for &'de FastStr {
     }
 
     fn to_json_slice(&self) -> JsonSlice<'de> {
-        JsonSlice::FastStr((**self).clone())
+        let cloned = (**self).clone();
+        // A short FastStr keeps its bytes inline, so its clone is a second copy that dies with the
+        // reader, while the reader hands out data borrowed for `'de`. Borrow the caller's bytes then.
+        if cloned.as_ptr() == self.as_ptr() {
+            JsonSlice::FastStr(cloned)
+        } else {
+            JsonSlice::Raw(self.as_bytes())
+        }
     }
 
     fn from_subset(&self, sub: &'de [u8]) -> JsonSlice<'de> {
